@@ -11,9 +11,8 @@ Lemma update_post f s s' :
   Inv s -> In id (store s) -> upd s0 s' -> CoreV s' -> FocusOk s' ->
   (forall x, x <> id -> (In x (raw_ids s') <-> In x (raw_ids s))) ->
   (In id (raw_ids s') <-> shows s f = true) ->
-  (forall o k, cache_of s' id o = Some k -> k = generate o f \/
-     (cache_of s id o = Some k /\ (o <> okey s \/ ~ In id (raw_ids s) \/ shows s f = false))) ->
-  Inv s' /\ (M3 s -> M3 s') /\ (Fresh s -> fresh_ok s (Update f) -> Fresh s').
+  (forall k x, In (k, x) (view s') -> (x = id /\ k = generate (okey s) f) \/ (x <> id /\ In (k, x) (view s))) ->
+  Inv s' /\ (M3 s -> M3 s') /\ (FreshV s -> FreshV s').
 Proof.
   intros id s0 I Hst U C F Hm Hid Hc. pose proof (u_cfg _ _ U) as Cf.
   assert (At : forall x, attr s' x = if N.eqb id x then f else attr s x).
@@ -36,15 +35,8 @@ Proof.
   - intros H3 Hs x H. rewrite Sm in Hs. destruct (N.eq_dec x id) as [->|Hne].
     + rewrite Atid. apply Hid in H. apply shows_true in H. apply H. exact Hs.
     + rewrite Atne by exact Hne. apply H3; [exact Hs|]. apply Hm; assumption.
-  - intros Fr Hg x o k H. destruct (N.eq_dec x id) as [->|Hne].
-    + rewrite Atid. destruct (Hc _ _ H) as [H1|[H1 H2]]; [exact H1|].
-      destruct (N.eq_dec k (generate o f)) as [E|E]; [exact E|]. exfalso.
-      destruct (Hg Hst _ _ H1 E) as (G1 & G2 & G3).
-      destruct H2 as [H2|[H2|H2]]; [contradiction | contradiction | congruence].
-    + rewrite Atne by exact Hne. destruct (u_new _ _ U _ _ _ H) as [H1|[_ H1]].
-      * apply Fr. exact H1.
-      * rewrite H1. unfold attr, s0, mutated. simpl. rewrite hget_hset.
-        destruct (N.eqb (fid f) x) eqn:E; [apply N.eqb_eq in E; unfold id in Hne; congruence | reflexivity].
+  - intros Fr k x H. rewrite (ce_okey _ _ Cf). change (okey s0) with (okey s).
+    destruct (Hc _ _ H) as [[-> ->]|[Hne Hin]]; [rewrite Atid; reflexivity | rewrite Atne by exact Hne; apply Fr; exact Hin].
 Qed.
 
 Lemma do_update f s : Inv s -> log s = [] -> exists s', do_op (Update f) s = Ok (tt, s') /\ post (Update f) s s'.
@@ -73,20 +65,16 @@ Proof.
       + intros x H. rewrite Atne by (apply Ne, Vst, H). apply (i_m1 _ I). exact H.
       + intros x H Hw. unfold wanted in Hw. rewrite Atne in Hw by (apply Ne, H). apply (i_m2 _ I); assumption.
     - intros H3 Hs x H. rewrite Atne by (apply Ne, Vst, H). apply H3; assumption.
-    - intros Fr _ x o k H. change (cache_of s0 x o) with (cache_of s x o) in H.
-      rewrite Atne; [apply Fr; exact H|]. apply Ne, (i_sids _ I).
-      unfold cache_of in H. destruct (sget (settings s) x) eqn:Es; [|discriminate]. eapply sget_ids; eauto.
+    - intros Fr k x H. change (okey s0) with (okey s). rewrite Atne; [apply Fr; exact H|].
+      apply Ne, Vst. eapply in_ids; eauto.
     - change (log s0) with (log s). rewrite L. apply n_done. reflexivity. }
   apply memN_In in Em. change (store s0) with (store s) in Em.
   rewrite bind_ret_r. msimp.
   rewrite Atid. change (shows s0 f) with (shows s f).
   assert (Fin : forall s', (exists l, log s' = l /\ notif (raw_ids s) l (raw_ids s')) ->
-            (Inv s' /\ (M3 s -> M3 s') /\ (Fresh s -> fresh_ok s (Update f) -> Fresh s')) ->
+            (Inv s' /\ (M3 s -> M3 s') /\ (FreshV s -> FreshV s')) ->
             post (Update f) s s').
   { intros s' (l & <- & Hn) (A & B & D). split; [exact A | split; [exact B | split; [exact D | exact Hn]]]. }
-  assert (Chain : forall t, upd s0 t -> forall o k, cache_of t id o = Some k ->
-            cache_of s id o = Some k \/ k = generate o f).
-  { intros t Ut o k H. destruct (u_new _ _ Ut _ _ _ H) as [H1|[_ H1]]; [left; exact H1 | right; rewrite H1, Atid; reflexivity]. }
   destruct (shows s f) eqn:Emf.
   - destruct (view_contains_spec id s0 C0) as (b & s1 & E1 & X1 & Hb). rewrite (bind_ok _ _ _ _ _ E1).
     assert (C1 : CoreV s1) by (apply (CoreV_updm s0 s1); [apply (e_updm _ _ X1) | apply (e_view _ _ X1) | exact C0]).
@@ -98,7 +86,7 @@ Proof.
       msimp.
       assert (F1 : FocusOk s1).
       { eapply FocusOk_eq; [apply (e_view _ _ X1) | apply (e_focus _ _ X1) | apply (i_focus _ I)]. }
-      destruct (okey_refresh_spec id s1 C1) as (s2 & E2 & U2 & C2 & P2 & F2 & L2 & K2); [rewrite R1; exact Hin | exact F1 |].
+      destruct (okey_refresh_spec id s1 C1) as (s2 & E2 & U2 & C2 & P2 & F2 & L2 & Hv2); [rewrite R1; exact Hin | exact F1 |].
       rewrite (bind_ok _ _ _ _ _ E2). unfold send_view_update, emit, modify.
       eexists. split; [reflexivity|].
       set (s3 := set_log (log s2 ++ [ViewUpdate id]) s2).
@@ -122,15 +110,9 @@ Proof.
         { exact F2. }
         { intros x _. apply Mem. }
         { split; [intros _; exact Emf | intros _; apply Mem; exact Hin]. }
-        { intros o k H. change (cache_of s2 id o = Some k) in H.
-          destruct (order_eqb o (okey s)) eqn:Eo.
-          - apply order_eqb_eq in Eo. subst o. left. rewrite O1, (attr_cfg _ _ id Cf1), Atid in K2. congruence.
-          - assert (o <> okey s) by (intros ->; rewrite (proj2 (order_eqb_eq _ _) eq_refl) in Eo; discriminate).
-            destruct (u_new _ _ U2 _ _ _ H) as [H1|[_ H1]].
-            + destruct (u_new _ _ (um_upd _ _ (e_updm _ _ X1)) _ _ _ H1) as [H2|[_ H2]].
-              * right. split; [exact H2 | auto].
-              * left. rewrite H2, Atid. reflexivity.
-            + left. rewrite H1, (attr_cfg _ _ id Cf1), Atid. reflexivity. }
+        { intros k x H. change (view s3) with (view s2) in H. destruct (Hv2 _ _ H) as [[-> ->]|[Hne Hi]].
+          - left. split; [reflexivity|]. rewrite O1, (attr_cfg _ _ id Cf1), Atid. reflexivity.
+          - right. split; [exact Hne|]. rewrite (e_view _ _ X1) in Hi. exact Hi. }
     + (* not shown yet: show it *)
       assert (Hn : ~ In id (raw_ids s)) by (intros H; apply Hb in H; discriminate).
       change (_base_add id ;;; ff <- gets focus_follow ;; (if ff then focus_set_flow (Some id) else ret tt) ;;; send_view_add id)
@@ -139,9 +121,9 @@ Proof.
       assert (Hf1 : forall g, focus s1 = Some g -> In g (raw_ids s1)).
       { intros g Hg. rewrite (e_focus _ _ X1) in Hg. rewrite R1. pose proof (i_focus _ I) as F. unfold FocusOk in F.
         change (focus s0) with (focus s) in Hg. rewrite Hg in F. exact F. }
-      destruct (show_flow_spec id s1 C1 Hst1) as (s2 & E2 & U2 & C2 & F2 & P2 & L2); [rewrite R1; exact Hn | exact Hf1 |].
+      destruct (show_flow_spec id s1 C1 Hst1) as (s2 & E2 & U2 & C2 & F2 & P2 & L2 & _ & V2); [rewrite R1; exact Hn | exact Hf1 |].
       exists s2. split; [exact E2|].
-      assert (U : upd s0 s2) by (eapply upd_trans; [apply (um_upd _ _ (e_updm _ _ X1)) | apply (um_upd _ _ U2)]).
+      assert (U : upd s0 s2) by (eapply upd_trans; [apply (um_upd _ _ (e_updm _ _ X1)) | exact U2]).
       rewrite R1 in P2.
       apply Fin.
       * eexists. split; [reflexivity|]. rewrite L2, (e_log _ _ X1). change (log s0) with (log s). rewrite L. simpl.
@@ -151,7 +133,9 @@ Proof.
           - apply (Permutation_in _ P2) in H. destruct H as [H|H]; [exfalso; apply Hne; symmetry; exact H | exact H].
           - apply (Permutation_in _ (Permutation_sym P2)). right. exact H. }
         { split; [intros _; exact Emf | intros _; apply (Permutation_in _ (Permutation_sym P2)); left; reflexivity]. }
-        { intros o k H. destruct (Chain _ U _ _ H) as [H1|H1]; [right; split; [exact H1 | right; left; exact Hn] | left; exact H1]. }
+        { intros k x H. rewrite V2 in H. apply (Permutation_in _ (sl_add_perm _ _ _)) in H. destruct H as [H|H].
+          - injection H as <- <-. left. split; [reflexivity|]. rewrite (ce_okey _ _ Cf1), (attr_cfg _ _ id Cf1), Atid. reflexivity.
+          - rewrite (e_view _ _ X1) in H. right. split; [intros ->; apply Hn; eapply in_ids; eauto | exact H]. }
   - destruct (view_find_spec id s0 C0) as (r & s1 & E1 & X1 & Hs & Hnone). rewrite (bind_ok _ _ _ _ _ E1).
     assert (C1 : CoreV s1) by (apply (CoreV_updm s0 s1); [apply (e_updm _ _ X1) | apply (e_view _ _ X1) | exact C0]).
     assert (R1 : raw_ids s1 = raw_ids s) by (unfold raw_ids; rewrite (e_view _ _ X1); reflexivity).
@@ -181,7 +165,9 @@ Proof.
       * apply (update_post f s s3 I Em U (sent_CoreV _ _ _ X3 C2) F3).
         { intros x Hne. rewrite R3. apply (in_perm_cons _ _ _ _ P2 Hne). }
         { split; [intros H; rewrite R3 in H; contradiction | intros H; congruence]. }
-        { intros o k' H. destruct (Chain _ U _ _ H) as [H1|H1]; [right; split; [exact H1 | right; right; exact Emf] | left; exact H1]. }
+        { intros k' x H. rewrite (sn_view _ _ _ X3), V2 in H. right.
+          split; [intros ->; apply Hn2; unfold raw_ids; rewrite V2; eapply in_ids; eauto|].
+          change (view s) with (view s0). rewrite <- (e_view _ _ X1), V1. apply in_app_iff in H. apply in_or_app. simpl. tauto. }
     + (* hidden and still not matching *)
       assert (Hn : ~ In id (raw_ids s)) by (apply Hnone; reflexivity).
       exists s1. split; [reflexivity|].
@@ -191,8 +177,7 @@ Proof.
       * apply (update_post f s s1 I Em (um_upd _ _ (e_updm _ _ X1)) C1 F1).
         { intros x _. rewrite R1. tauto. }
         { split; [intros H; rewrite R1 in H; contradiction | intros H; congruence]. }
-        { intros o k H. destruct (Chain _ (um_upd _ _ (e_updm _ _ X1)) _ _ H) as [H1|H1];
-            [right; split; [exact H1 | right; right; exact Emf] | left; exact H1]. }
+        { intros k x H. rewrite (e_view _ _ X1) in H. right. split; [intros ->; apply Hn; eapply in_ids; eauto | exact H]. }
 Qed.
 
 (* ---------- every operation ---------- *)
